@@ -390,6 +390,33 @@ CHECKS["C02"] = dict(
               "path, differential replay on the compiled module",
     design="2/C02")
 
+CHECKS["C06"] = dict(
+    level="other",
+    text="Every method of ParticleArray is lowered from particle_array.pyx "
+         "to Python (typed bindings keep their run-time check) and executed "
+         "on a model of the cyarray arrays. Property values are "
+         "uninterpreted symbols and tags symbolic integers in {0,1,2}; the "
+         "path explorer forks wherever the code compares a tag. Programs = "
+         "an initial array (n<=3; double/float/int/long/unsigned, stride 1 "
+         "and 2, constants, with and without tags) followed by 1, 2 (3 in "
+         "the thorough tier) of 57 public calls (add/remove/extract/append "
+         "particles, add/remove property and constant, extend, resize, "
+         "align, set_tag, set, copy, clone, pickle round trip...). After "
+         "every call the state is compared with the record-list "
+         "specification of the same calls: n*stride values per property, "
+         "strides, C types, defaults, constants, output list, every particle "
+         "keeps all its values together (solver equality per slot), Local "
+         "particles first after an alignment. Bounded, not a proof.",
+    note="lowering trusted; cyarray modelled after carray.pyx and compared "
+         "with the real cyarray on concrete sequences; numpy calls modelled "
+         "on lists; valid arguments = documented preconditions coded in "
+         "vf/c06_ops.py; GPU helper, written-through numpy views and the "
+         "pickle byte format outside",
+    technique="symbolic execution of Cython source lowered to Python over "
+              "enumerated call sequences, solver-decided tag case analysis "
+              "and slot equalities, replay on the compiled class",
+    design="2/C06")
+
 NOT_APPLICABLE = {
     "C05": "whole-application runs of compiled OpenMP code compared across "
            "configurations up to summation order: no unit a solver can "
